@@ -225,6 +225,7 @@ Fixpoint qlive (started pending:bool) (l:list op) : Prop :=
       | OProcess e _ [], true => e_ty e <> EV_NONE /\ qlive true false t
       | OEnqueue e, true => e_ty e <> EV_NONE /\ qlive true true t
       | ODrain _ [], true => qlive true false t
+      | ODrain1 _ [], true => qlive true pending t
       | _, _ => False
       end
   end.
@@ -232,21 +233,23 @@ Fixpoint qlive (started pending:bool) (l:list op) : Prop :=
 Lemma qlive_bracketed : forall l s p, qlive s p l -> qbracketed s l.
 Proof.
   induction l as [|o t IH]; intros s p H; [exact I|]. cbn [qlive qbracketed] in *.
-  destruct o as [val plan|plan|e val plan|e|val plan| | | | | | |]; try contradiction.
+  destruct o as [val plan|plan|e val plan|e|val plan|val plan| | | | | |]; try contradiction.
   - destruct plan; [|contradiction]. destruct s; [contradiction|]. destruct H as (_ & H). eapply IH; eauto.
   - destruct plan; [|contradiction]. destruct s; [|contradiction]. destruct H as (_ & H). eapply IH; eauto.
   - destruct plan; [|contradiction]. destruct s; [|contradiction]. destruct H as (He & H). split; [exact He | eapply IH; eauto].
   - destruct s; [|contradiction]. destruct H as (He & H). split; [exact He | eapply IH; eauto].
   - destruct plan; [|contradiction]. destruct s; [|contradiction]. eapply IH; eauto.
+  - destruct plan; [|contradiction]. destruct s; [|contradiction]. eapply IH; eauto.
 Qed.
 Lemma qlive_plain : forall l s p, qlive s p l -> Forall qplain_op l.
 Proof.
   induction l as [|o t IH]; intros s p H; [constructor|]. cbn [qlive] in H.
-  destruct o as [val plan|plan|e val plan|e|val plan| | | | | | |]; try contradiction.
+  destruct o as [val plan|plan|e val plan|e|val plan|val plan| | | | | |]; try contradiction.
   - destruct plan; [|contradiction]. destruct s; [contradiction|]. destruct H as (_ & H). constructor; [exact I | eapply IH; eauto].
   - destruct plan; [|contradiction]. destruct s; [|contradiction]. destruct H as (_ & H). constructor; [exact I | eapply IH; eauto].
   - destruct plan; [|contradiction]. destruct s; [|contradiction]. destruct H as (He & H). constructor; [exact He | eapply IH; eauto].
   - destruct s; [|contradiction]. destruct H as (He & H). constructor; [exact He | eapply IH; eauto].
+  - destruct plan; [|contradiction]. destruct s; [|contradiction]. constructor; [exact I | eapply IH; eauto].
   - destruct plan; [|contradiction]. destruct s; [|contradiction]. constructor; [exact I | eapply IH; eauto].
 Qed.
 
@@ -254,7 +257,7 @@ Lemma sp_qrun_same pol mc : forall l c pend s p, qlive s p l -> (p = false -> pe
   Forall2 same_spec (sp_qrun pol mc (c, pend) l) (sp_qrun_mp11 pol mc (c, pend) l).
 Proof.
   induction l as [|o t IH]; intros c pend s p H Hp; cbn [sp_qrun sp_qrun_mp11]; [constructor|]. cbn [qlive] in H.
-  destruct o as [val plan|plan|e val plan|e|val plan| | | | | | |]; try contradiction; cbn [sp_qop sp_qop_mp11].
+  destruct o as [val plan|plan|e val plan|e|val plan|val plan| | | | | |]; try contradiction; cbn [sp_qop sp_qop_mp11].
   - destruct plan; [|contradiction]. destruct s; [contradiction|]. destruct H as (-> & H). rewrite (Hp eq_refl). cbn [sp_drain].
     unfold sp_start, sp_start_obs. destruct (sp_enter mc (Evt EV_INIT 0) (c_set_act c (m_inits mc))) as [items cc]. cbn [fst].
     constructor; [|eapply IH; eauto].
@@ -271,6 +274,10 @@ Proof.
   - destruct plan; [|contradiction]. destruct s; [|contradiction].
     destruct (sp_drain pol mc val pend c) as [i c']. cbn [fst]. constructor; [|eapply IH; eauto].
     unfold same_spec. cbn [fst snd]. auto.
+  - destruct plan; [|contradiction]. destruct s; [|contradiction]. destruct pend as [|e0 pend'].
+    + cbn [fst]. constructor; [|eapply IH; eauto]. unfold same_spec. cbn [fst snd]. auto.
+    + cbn [fst]. constructor; [|eapply IH; eauto; intros ->; specialize (Hp eq_refl); discriminate].
+      unfold same_spec. cbn [fst snd]. auto.
 Qed.
 
 (* back / back11 and backmp11, the same switch policy: on these histories every stored occurrence is dispatched by both
